@@ -349,6 +349,7 @@ fn cpu_json(c: &Cpu) -> J {
     .set("hl", J::s(format!("{:04X}", c.hl())))
     .set("sp", J::s(format!("{:04X}", c.sp)))
     .set("pc", J::s(format!("{:04X}", c.pc)))
+    .set("oam_dma_armed_before_the_step", J::Bool(crate::cpustep::dma_armed_for(c)))
 }
 
 struct W {
@@ -524,6 +525,7 @@ pub fn block_diff(i: &BlockObs, j: &BlockObs) -> Vec<&'static str> {
 
 fn eval_jit(job: &Job, wk: &mut W, ctx: &mut Ctx, sw: &Sweep, c: &Cpu, mem: Option<(u16, u8)>, place: &str) {
   let jw = wk.jw.as_mut().unwrap();
+  jw.dma_armed = crate::cpustep::dma_armed_for(c);
   let oi = jw.run_interp_block(c);
   jw.restore(&oi);
   let t0 = jw.total_translations;
